@@ -1,8 +1,10 @@
 package owa
 
 import (
+	"fmt"
 	"github.com/Azbesciak/RealDecisionMaker/lib/model"
 	"github.com/Azbesciak/RealDecisionMaker/lib/utils"
+	"sort"
 )
 
 type OwaBiasListener struct {
@@ -14,8 +16,27 @@ func (h *OwaBiasListener) Identifier() string {
 
 func (h *OwaBiasListener) Merge(params model.MethodParameters, addition model.MethodParameters) model.MethodParameters {
 	oldParams := params.(owaParams)
-	newParams := addition.(owaParams)
-	return *oldParams.merge(&newParams)
+	switch newParams := addition.(type) {
+	case owaParams:
+		return *oldParams.merge(&newParams)
+	case model.WeightType:
+		// OnCriterionAdded reports the new criterion's weight as a plain weights map
+		ids := make([]string, 0, len(newParams.Weights))
+		for id := range newParams.Weights {
+			ids = append(ids, id)
+		}
+		sort.Strings(ids)
+		added := make(model.WeightedCriteria, len(ids))
+		for i, id := range ids {
+			added[i] = model.WeightedCriterion{
+				Criterion: model.Criterion{Id: id, Type: model.Gain},
+				Weight:    newParams.Weights[id],
+			}
+		}
+		return *oldParams.merge(&owaParams{Weights: &added})
+	default:
+		panic(fmt.Errorf("owa cannot merge parameters of type %T", addition))
+	}
 }
 
 func (h *OwaBiasListener) OnCriterionAdded(
